@@ -49,14 +49,15 @@ Proof.
 Qed.
 
 Lemma prep_inv : forall ca cb mx pool s o pa pb, coll_shape ca -> coll_shape cb ->
+  (forall cs, F12Free ca (meta_of pool cs)) -> (forall cs, F12Free cb (meta_of pool cs)) ->
   Inv ca pool (s_a s) pa -> Inv cb pool (s_b s) pb ->
   Inv ca pool (s_a (prep ca cb mx pool s o)) pa /\ Inv cb pool (s_b (prep ca cb mx pool s o)) pb.
 Proof.
-  intros ca cb mx pool s o pa pb Ha Hb Ia Ib. unfold prep.
+  intros ca cb mx pool s o pa pb Ha Hb Fa Fb Ia Ib. unfold prep.
   destruct (cs_of_op o) as [cs|]; auto. destruct (m_level (meta_of pool cs) <=? mx); auto.
   destruct (assoc cs (st_cache (s_a s))); auto. simpl. split; apply Inv_set_cache; auto.
-  - apply iand_sound_l. apply ISound_register. auto.
-  - apply iand_sound_r. apply ISound_register. auto.
+  - apply iand_sound_l. apply ISound_register; auto.
+  - apply iand_sound_r. apply ISound_register; auto.
 Qed.
 
 Theorem two_stacks_from : forall ca cb mx pool, WF ca -> WF cb -> HintSound ca mx pool -> HintSound cb mx pool ->
@@ -65,7 +66,7 @@ Theorem two_stacks_from : forall ca cb mx pool, WF ca -> WF cb -> HintSound ca m
 Proof.
   intros ca cb mx pool Wa Wb Ha Hb. induction h as [|[t o] r IH]; intros s pa pb Ia Ib Hc; [exact I|].
   rewrite clean2_from_cons in Hc. unfold step2 in Hc.
-  destruct (prep_inv ca cb mx pool s o pa pb (wf_shape _ Wa) (wf_shape _ Wb) Ia Ib) as [Ia1 Ib1].
+  destruct (prep_inv ca cb mx pool s o pa pb (wf_shape _ Wa) (wf_shape _ Wb) (proj2 Ha) (proj2 Hb) Ia Ib) as [Ia1 Ib1].
   destruct t; simpl.
   - destruct (step ca mx pool (s_a (prep ca cb mx pool s o)) o) as [[st' out] bare] eqn:Es.
     apply andb_true_iff in Hc. destruct Hc as [Hbare Hc]. destruct bare; [discriminate|].
